@@ -118,7 +118,7 @@ def reference_verdict(specs, layer, dead_before):
     return codes, lane_err, inner
 
 
-def encode_frame(rng, specs, nasty):
+def encode_frame(rng, specs, nasty, many=False):
     per_lane = {}
     flags = []
     for sp in specs:
@@ -127,7 +127,7 @@ def encode_frame(rng, specs, nasty):
             if c["empty"]:
                 chips.append(alpide.Chip(c["id"], c["bc"], empty=True))
             else:
-                chips.append(alpide.Chip(c["id"], c["bc"], flags=c["flags"], regions=alpide.random_hits(rng, nasty=nasty)))
+                chips.append(alpide.Chip(c["id"], c["bc"], flags=c["flags"], regions=alpide.random_hits(rng, nasty=nasty, many=many)))
                 flags.append(c["flags"])
         data = bytearray()
         for k, c in enumerate(chips):
@@ -237,12 +237,14 @@ def one_case(args):
     nodata = rng.choice([0.0, 0.0, 0.5])      # frames preceded by no-data TDHs
     # --mute-errors only silences the display (and drops the per-lane context lines): verdict, location and lane list must not change
     muted = case % 3 == 2
+    # scale: every fifth case has lanes of several kB per frame (thousands of hit bytes, frames spread over many pages)
+    long_lanes = case % 5 == 4 and layer <= 2
     runs = []
     for variant in range(2):   # same skeleton, different hit content
         vr = rng_for(seed, case, 100 + variant)
         fw, allflags = [], []
         for specs in specs_list:
-            w, fl = encode_frame(vr, specs, nasty=(variant == 1))
+            w, fl = encode_frame(vr, specs, nasty=(variant == 1), many=long_lanes)
             fw.append(w)
             allflags += fl
         srng = rng_for(seed, case, 7)   # identical page layout decisions for both variants where possible
@@ -253,7 +255,7 @@ def one_case(args):
         r = obs.run(exe, [path, "check", "all", "its-stave"] + (["-m"] if muted else []), workdir=wd, stats="json", tag="c%d" % case)
         os.unlink(path)
         runs.append((s, positions, data, r, allflags))
-    desc = "layer %d (%s), %d frames %s, format %d%s" % (layer, its.barrel(layer), nframes, [t["kind"] for t in truth], fmt, ", -m" if muted else "")
+    desc = "layer %d (%s), %d frames %s, format %d%s" % (layer, its.barrel(layer), nframes, [t["kind"] for t in truth], fmt, (", -m" if muted else "") + (", long lanes" if long_lanes else ""))
     out["sample"] = desc
 
     def bad(what, sig, variant=0):
